@@ -1,4 +1,4 @@
-import ClipVerif.Check.Proto
+import ClipVerif.Check.ModelProto
 /- `oracle`: one request per line on stdin, one answer per line on stdout (flushed). -/
 
 def parseInts (ws : List String) : Option (List Int) :=
@@ -17,6 +17,22 @@ def answer (line : String) : String :=
   | "cover" :: mode :: rest =>
     match parseInts rest with
     | some ts => Proto.cover mode ts
+    | none => "parse-error ints"
+  | "model" :: name :: rest =>
+    match parseInts rest with
+    | some ts => ModelProto.model name ts
+    | none => "parse-error ints"
+  | "props" :: name :: rest =>
+    match parseInts rest with
+    | some ts => ModelProto.props name ts
+    | none => "parse-error ints"
+  | "gen" :: fn :: rest =>
+    match parseInts rest with
+    | some ts => ModelProto.gen fn ts
+    | none => "parse-error ints"
+  | "offset" :: rest =>
+    match parseInts rest with
+    | some ts => Proto.offset ts
     | none => "parse-error ints"
   | "ping" :: _ => "pong"
   | _ => "parse-error cmd"
